@@ -43,6 +43,20 @@ class RealLife:
         if rng.random() < 0.5:
             # a maintenance branch created before any bump; switching to it later means "older checkout, newer tags elsewhere"
             ops.append({"op": "actor_create_branch", "name": "maint"})
+        if "tag" in rp.fields_of(tree) and rng.random() < 0.3:
+            # a release cycle (pre-releases, then the final release of the same number), after which work continues on an older
+            # checkout: the tags then hold X-rc0, X-rc1 and X, and the greatest of them is X
+            if not ops:
+                ops.append({"op": "actor_create_branch", "name": "maint"})
+            pre = rng.choice(["rc", "beta", "alpha", "dev"])
+            ops.append({"op": "update", "flags": {"tag": pre}, "delta": 1, "vcs_flags": []})
+            if "num" in rp.fields_of(tree):
+                ops.append({"op": "update", "flags": {"tag_num": True}, "delta": 1, "vcs_flags": []})
+            ops.append({"op": "update", "flags": {"tag": "final"}, "delta": 2, "vcs_flags": []})
+            ops.append({"op": "actor_switch_branch", "name": "maint"})
+            ops.append({"op": "update", "flags": rng.choice([{"tag_num": True}, {"tag": "final"}, {}, {"tag": pre}]), "delta": 1,
+                        "vcs_flags": []})
+            n = max(n, len(ops) + 1)
         while len(ops) < n:
             r = rng.random()
             if r < 0.62:
